@@ -26,7 +26,7 @@ Theorem C04_exchange_retires_previous_generation :
   o_err (snd res1) = "" ->
   exists k r, key_of s1 tok = Some k /\ refresh (st s1) k = Some (true, r) /\
   forall i e tampered hint scopes,
-    nth_error (log s1) i = Some e -> i_rid e = r_id r ->
+    nth_error (log s1) i = Some e -> i_rid e = r_id r -> i_kind e <> KImplicit ->
     introspect cfg (run cfg (fst res1) h2) {| p_ref := CRef i; p_tampered := tampered |} hint scopes = None.
 Proof. exact rotation_retires_old_pair. Qed.
 Print Assumptions C04_exchange_retires_previous_generation.
@@ -41,7 +41,7 @@ Theorem C04_reuse_kills_the_family :
   let res := refresh_flow cfg s1 (Some c) tok in
   o_err (snd res) = "invalid_grant" /\ o_minted (snd res) = [] /\
   (let s2 := run cfg (fst res) h2 in
-   nth_error (log s2) i = Some e -> i_rid e = r_id r ->
+   nth_error (log s2) i = Some e -> i_rid e = r_id r -> i_kind e <> KImplicit ->
    introspect cfg s2 {| p_ref := CRef i; p_tampered := tampered |} hint scopes = None).
 Proof. exact reuse_kills_family. Qed.
 Print Assumptions C04_reuse_kills_the_family.
